@@ -45,6 +45,8 @@ pub struct Fixtures {
     pub scripts: Vec<Doc>,
     /// indices into `maps` of the amplification documents (one long string, many references)
     pub amplify: Vec<usize>,
+    /// indices into `maps` of the large documents (many lines, names, sources, sections, scopes)
+    pub scale: Vec<usize>,
 }
 
 fn walk(dir: &std::path::Path, out: &mut Vec<std::path::PathBuf>) {
@@ -99,6 +101,7 @@ impl Fixtures {
         walk(std::path::Path::new("/repo/tests/fixtures"), &mut files);
         let mut maps = Vec::new();
         let mut amplify = Vec::new();
+        let mut scale = Vec::new();
         let mut scripts = Vec::new();
         for p in files {
             let name = p.to_string_lossy().to_string();
@@ -156,6 +159,9 @@ impl Fixtures {
             }
             let r: String = bits.iter().map(|&b| B64[b as usize] as char).collect();
             let text = format!("{{\"version\":3,\"sources\":[\"min.js\"],\"names\":[],\"mappings\":\"{m}\",\"rangeMappings\":\"{r};B\"}}");
+            if segs >= 70_000 {
+                scale.push(maps.len());
+            }
             maps.push(Doc { bytes: Arc::new(text.into_bytes()), label: format!("inline:one-line-{segs}-segments"), kind: DocKind::Inline });
         }
         // scale: a few large documents with many generated lines (and a rangeMappings line per
@@ -175,6 +181,7 @@ impl Fixtures {
                 }
             }
             let text = format!("{{\"version\":3,\"sources\":[\"a.js\"],\"names\":[],\"mappings\":\"{m}\",\"rangeMappings\":\"{r}\"}}");
+            scale.push(maps.len());
             maps.push(Doc { bytes: Arc::new(text.into_bytes()), label: format!("inline:many-lines-{lines}"), kind: DocKind::Inline });
         }
         // amplification shapes: one long string and very many references to it. Memory that is
@@ -234,10 +241,76 @@ impl Fixtures {
                 maps.push(Doc { bytes: Arc::new(text.into_bytes()), label: format!("inline:amplify-{name}"), kind: DocKind::Inline });
             }
         }
+        // scale in the other dimensions (names, sources, sections, scopes, embedded contents,
+        // ignore list): what makes time that is quadratic in one of them visible to the
+        // wall-clock backstop. Sampled very rarely (and a little more often by C05 directly).
+        {
+            let mut sc: Vec<(String, String)> = Vec::new();
+            let toks = |n: usize, first: &str, next: &str| {
+                let mut m = String::with_capacity(n * 6);
+                m.push_str(first);
+                for k in 1..n {
+                    m.push(if k % 100 == 0 { ';' } else { ',' });
+                    // after a line break the generated column starts again at 0
+                    if k % 100 == 0 {
+                        m.push('A');
+                        m.push_str(&next[1..]);
+                    } else {
+                        m.push_str(next);
+                    }
+                }
+                m
+            };
+            let list = |n: usize, f: &dyn Fn(usize) -> String| (0..n).map(f).collect::<Vec<_>>().join(",");
+            let n = 150_000usize;
+            sc.push((format!("names-{n}"), format!(
+                "{{\"version\":3,\"sources\":[\"a.js\"],\"names\":[{}],\"mappings\":\"{}\"}}",
+                list(n, &|k| format!("\"n{k}\"")), toks(n, "AAAAA", "CAACC"))));
+            let n = 60_000usize;
+            sc.push((format!("sources-{n}"), format!(
+                "{{\"version\":3,\"sources\":[{}],\"names\":[],\"mappings\":\"{}\"}}",
+                list(n, &|k| format!("\"src/m{}/s{k}.js\"", k % 97)), toks(n, "AAAA", "CCAA"))));
+            let n = 20_000usize;
+            sc.push((format!("sources-with-contents-{n}"), format!(
+                "{{\"version\":3,\"sources\":[{}],\"sourcesContent\":[{}],\"names\":[\"f\"],\"mappings\":\"{}\"}}",
+                list(n, &|k| format!("\"s{k}.js\"")), list(n, &|k| if k % 9 == 0 { "null".into() } else { format!("\"function f{k}(){{}}\\nvar v{k};\"") }), toks(n, "AAAAA", "CCAAA"))));
+            let n = 40_000usize;
+            sc.push((format!("sections-{n}"), format!(
+                "{{\"version\":3,\"sections\":[{}]}}",
+                list(n, &|k| format!("{{\"offset\":{{\"line\":{k},\"column\":0}},\"map\":{{\"version\":3,\"sources\":[\"s{}.js\"],\"names\":[\"n{}\"],\"mappings\":\"AAAAA,CAAC\"}}}}", k % 1000, k % 777)))));
+            let n = 150_000usize;
+            let mut hm = String::with_capacity(n * 4);
+            for k in 0..n {
+                if k > 0 {
+                    hm.push(if k % 3 == 0 { ';' } else { ',' });
+                }
+                // column, name index delta (cycling through the names), line delta
+                if k == 0 {
+                    hm.push_str("AAA");
+                } else if k % 200 == 0 {
+                    hm.push('C');
+                    vlq(&mut hm, -199);
+                    hm.push('C');
+                } else {
+                    hm.push_str("CCC");
+                }
+            }
+            sc.push((format!("hermes-scopes-{n}"), format!(
+                "{{\"version\":3,\"sources\":[\"a.js\"],\"names\":[],\"mappings\":\"{}\",\"x_facebook_sources\":[[{{\"names\":[{}],\"mappings\":\"{hm}\"}}]]}}",
+                toks(20_000, "AAAA", "CACA"), list(200, &|k| format!("\"fn{k}\"")))));
+            let n = 100_000usize;
+            sc.push((format!("ignore-list-{n}"), format!(
+                "{{\"version\":3,\"sources\":[\"a.js\",\"b.js\"],\"names\":[],\"mappings\":\"AAAA,CCAA\",\"ignoreList\":[{}]}}",
+                list(n, &|k| format!("{}", (k * 7919) % 200_003)))));
+            for (name, text) in sc {
+                scale.push(maps.len());
+                maps.push(Doc { bytes: Arc::new(text.into_bytes()), label: format!("inline:scale-{name}"), kind: DocKind::Inline });
+            }
+        }
         if maps.len() < 10 {
             simcore::harness_error("fixture maps under /repo/tests/fixtures not found");
         }
-        Fixtures { maps, scripts, amplify }
+        Fixtures { maps, scripts, amplify, scale }
     }
 }
 
